@@ -40,6 +40,13 @@ def confirm(v):
         if (arg.get('schema') or '').endswith('context') and arg.get('schema') != 'standard-no-context':
             out = out.split('+')[0]
         return out != base, desc
+    if v['clause'] == 'clean_pre_tag_changed':
+        lab, n = case['tag_pre']
+        if fmt == 'semver':
+            exp = '%s-%s.%d' % (base, lab, n) + ('.post.%d' % case['tag_post'] if case.get('tag_post') is not None else '')
+        else:
+            exp = '%s%s%d' % (base, {'alpha': 'a', 'beta': 'b', 'rc': 'rc'}[lab], n) + ('.post%d' % case['tag_post'] if case.get('tag_post') is not None else '')
+        return out != exp, desc + ' (tag %s)' % exp
     if v['clause'] == 'not_between':
         return not (flowlib.vcmp(fmt, base, out) == -1 and flowlib.vcmp(fmt, out, nxt) == -1), desc
     return False, desc
@@ -57,19 +64,18 @@ def main():
     cases = c03.flow_cases(ck.tier)
     mono = [dict(name='monotone', rules='short', branch=b, mode='commit') for b in (list('main'), list('f/x'), None)] + \
            [dict(name='monotone', rules='default', branch=list('develop')), dict(name='monotone', rules='short', branch=list('main'), schema='standard-base-prerelease-post-dev-context', mode='commit')]
-    ck.bounds = dict(tag='final release X.Y.Z: quick X.Y = 1.2 and Z in 1..9; thorough X,Y,Z in 1..9 (one decimal digit; the order obligations depend on the numbers only through comparisons), optional tag post',
+    ck.bounds = dict(tag='final release X.Y.Z: quick X.Y = 1.2 and Z in 1..9; thorough X,Y,Z in 1..9 (one decimal digit; the order obligations depend on the numbers only through comparisons), optional tag post; one family with Z in [2^32-3, 2^32+2] (semver output); pre-release tags X.Y.Z-<alpha|beta|rc>.<0..9>[.post.<0..9>] for the clean-checkout clause',
                      state='distance absent or 0..9, dirty absent/true/false (symbolic), clean-at-tag and moved families',
                      branch='absent, main, dv, rl/<any>, rl/2, f/<any><any>, release/<digit>, develop', rule_sets=['short', 'default'],
                      flags='post-mode absent/tag/commit, label/num flags, --dirty/--no-dirty, hash length 1,5,9 (thorough 1..9), schemas standard / standard-context / standard-no-context / standard-base-prerelease-post-dev-context',
-                     clock='wall clock before 2106-02-07 (dev timestamps are parsed as u32); one configuration runs with the clock unbounded',
+                     branch_hash='the SipHash of the branch name is an uninterpreted u64; quick: 20-digit values (>= 10^19) except in the hash-length families, thorough: any u64', clock='wall clock before 2106-02-07 (dev timestamps are parsed as u32); one configuration runs with the clock unbounded',
                      configurations=len(cases) + len(mono))
-    ck.outside = ['git histories (the git part is C02: distance/dirty are the abstraction of history)', 'pre-release tags of flow\'s own shapes (clean checkout reproduces the tag): only final-release tags are decided',
-                  'multi-digit version numbers and distances in the order obligations', 'Tera templates outside the fixed family flow builds (the model answers unsupported)']
+    ck.outside = ['git histories (the git part is C02: distance/dirty are the abstraction of history)', 'pre-release tags carrying a dev part', 'multi-digit version numbers and distances in the order obligations', 'Tera templates outside the fixed family flow builds (the model answers unsupported)']
     ck.assumptions = ['Tera modelled for the template family flow builds ({% if [not] a [and|or] b %}X{% else %}Y{% endif %}, {{ var }}, {{ fn(k=v) }}); every flow result reported is replayed through the real run_flow_pipeline (real Tera, real RON hand-over) natively',
                       'the second pipeline pass is run on the same draft variables as the first (what re-reading the same stdin yields)', 'python std models (models_used)']
     cands = []
     ex = engine.explore('c03', 'path_order', cases, jobs=ck.jobs, deadline=time.time() + (900 if quick else 5400))
-    cands += ck.absorb('clean at tag -> X.Y.Z; otherwise X.Y.Z < V < X.Y.(Z+1), both formats', ex, bounds=dict(configs=len(cases)), expect_tags=['flow_ok', 'clean_exact', 'between'])
+    cands += ck.absorb('clean at tag -> X.Y.Z; otherwise X.Y.Z < V < X.Y.(Z+1), both formats', ex, bounds=dict(configs=len(cases)), expect_tags=['flow_ok', 'clean_exact', 'clean_pre_exact', 'between'])
     ex = engine.explore('c03', 'path_monotone', mono, jobs=ck.jobs, deadline=time.time() + (600 if quick else 3600))
     cands += ck.absorb('commit post-mode: more commits -> strictly greater version', ex, bounds=dict(configs=len(mono)), expect_tags=['flow_ok', 'monotone'])
     seen = set()
